@@ -46,8 +46,10 @@ func (v *Vue) setStyleProperty(n *html.Node, property, value string) {
 
 	// Rebuild style string
 	var styles []string
-	for k, v := range styleMap {
-		styles = append(styles, k+":"+v+";")
+	for _, k := range styleOrder(styleVal, property+":"+value) {
+		if v, ok := styleMap[k]; ok {
+			styles = append(styles, k+":"+v+";")
+		}
 	}
 	helpers.AppendAttr(n, "style", strings.Join(styles, ""))
 }
